@@ -8,6 +8,7 @@ from ..core import case_rng
 from ..model import DSnap, LDimSet, Snap
 from ..oracles import dimset as O
 
+PIGGY = True  # thorough tier also runs the repository tests / howtos / examples under these monitors
 LEVEL = "exploration"
 BUDGET = {"quick": 45, "thorough": 150}
 SHARDS = {"quick": 1, "thorough": 16}
